@@ -359,6 +359,33 @@ def ctor_kwargs(tree: ast.Module) -> ast.Module:
                                                             value=k.value, lineno=st.lineno), st))
                 changed = True
                 continue
+            # `d = OrderedDict([("a", x), ("b", y)])` / `dict([...])`: the same, from a literal list of (constant key, value) pairs
+            if isinstance(tg, ast.Name) and isinstance(v, ast.Call) and len(v.args) == 1 and not v.keywords and isinstance(v.args[0], (ast.List, ast.Tuple)) \
+                    and v.args[0].elts and all(isinstance(e_, ast.Tuple) and len(e_.elts) == 2 and isinstance(e_.elts[0], ast.Constant) for e_ in v.args[0].elts) \
+                    and ((isinstance(v.func, ast.Name) and v.func.id in ("OrderedDict", "dict")) or (isinstance(v.func, ast.Attribute) and v.func.attr == "OrderedDict")):
+                empty = ast.copy_location(ast.Call(func=v.func, args=[], keywords=[]), v)
+                out.append(ast.copy_location(ast.Assign(targets=[ast.Name(id=tg.id, ctx=ast.Store())], value=empty, lineno=st.lineno), st))
+                for e_ in v.args[0].elts:
+                    out.append(ast.copy_location(ast.Assign(targets=[ast.Subscript(value=ast.Name(id=tg.id, ctx=ast.Load()), slice=e_.elts[0], ctx=ast.Store())],
+                                                            value=e_.elts[1], lineno=st.lineno), st))
+                changed = True
+                continue
+            # `if K not in D: D[K] = {}`  ==>  `D.setdefault(K, {})`   (open the group if it is not there yet)
+            if isinstance(st, ast.If) and not st.orelse and len(st.body) == 1 and isinstance(st.test, ast.Compare) and len(st.test.ops) == 1 \
+                    and isinstance(st.test.ops[0], ast.NotIn) and isinstance(st.body[0], ast.Assign) and len(st.body[0].targets) == 1:
+                a_ = st.body[0]
+                t_ = a_.targets[0]
+                if isinstance(t_, ast.Subscript) and ast.dump(t_.value) == ast.dump(st.test.comparators[0]) and _empty_container(a_.value):
+                    k_dump = ast.dump(t_.slice)
+                    left = st.test.left
+                    same_key = ast.dump(left) == k_dump
+                    if not same_key and isinstance(left, ast.Name) and isinstance(t_.slice, ast.Name) and left.id == t_.slice.id:
+                        same_key = True
+                    if same_key:
+                        call = ast.Call(func=ast.Attribute(value=t_.value, attr="setdefault", ctx=ast.Load()), args=[t_.slice, a_.value], keywords=[])
+                        out.append(ast.copy_location(ast.Expr(value=ast.copy_location(call, st)), st))
+                        changed = True
+                        continue
             out.append(st)
         return out
     t2 = copy.deepcopy(tree)
@@ -600,6 +627,14 @@ def loop_guards(tree: ast.Module) -> ast.Module:
     def fold_continue(body):
         nonlocal changed
         for i, st in enumerate(body):
+            if isinstance(st, ast.Try) and not st.orelse and not st.finalbody and st.handlers and body[i + 1:] \
+                    and all(h.body and isinstance(h.body[-1], ast.Continue) for h in st.handlers):
+                # `try: A except E: B; continue` + REST  ==>  `try: A except E: B else: REST`
+                rest = fold_continue(body[i + 1:])
+                hs = [ast.copy_location(ast.ExceptHandler(type=h.type, name=h.name, body=(h.body[:-1] or [ast.copy_location(ast.Pass(), h)])), h) for h in st.handlers]
+                new = ast.copy_location(ast.Try(body=st.body, handlers=hs, orelse=rest, finalbody=[]), st)
+                changed = True
+                return body[:i] + [new]
             if isinstance(st, ast.If) and not st.orelse and len(st.body) > 1 and isinstance(st.body[-1], ast.Continue) and body[i + 1:]:
                 # `if c: A; continue` + REST  ==>  `if c: A else: REST`
                 rest = fold_continue(body[i + 1:])
@@ -635,7 +670,11 @@ def loop_guards(tree: ast.Module) -> ast.Module:
                 # guard clauses: only `continue`s that are the guards themselves
                 conts = own_exits(st.body, (ast.Continue,))
                 guards_ = [x for x in st.body if isinstance(x, ast.If) and not x.orelse and isinstance(x.body[-1], ast.Continue)]
-                if conts and len(conts) == len(guards_) and all(any(c is g.body[-1] for g in guards_) for c in conts) and st.body[-1] not in guards_:
+                tguards = [x for x in st.body if isinstance(x, ast.Try) and not x.orelse and not x.finalbody and x.handlers
+                           and all(h.body and isinstance(h.body[-1], ast.Continue) for h in x.handlers)]
+                tconts = [h.body[-1] for x in tguards for h in x.handlers]
+                if conts and len(conts) == len(guards_) + len(tconts) and all(any(c is g.body[-1] for g in guards_) or any(c is tc for tc in tconts) for c in conts) \
+                        and st.body[-1] not in guards_ and st.body[-1] not in tguards:
                     st.body = fold_continue(st.body)
             if isinstance(st, ast.While) and isinstance(st.test, ast.Constant) and st.test.value is True and not st.orelse and len(st.body) >= 2:
                 last = st.body[-1]
@@ -656,10 +695,46 @@ def loop_guards(tree: ast.Module) -> ast.Module:
             out.append(st)
         return out
 
+    def fold_return_guards(fn):
+        """a procedure whose only returns are bare guard clauses at its top level: `if c: return` + REST ==> `if not c: REST`
+        (after which it has no return left and inline_helpers can write it out where it is called)"""
+        nonlocal changed
+        rets = [x for x in ast.walk(fn) if isinstance(x, ast.Return)]
+        nested = [x for st in fn.body for x in ast.walk(st) if isinstance(x, (ast.FunctionDef, ast.AsyncFunctionDef, ast.Lambda))]
+        if not rets or nested or any(r.value is not None and not (isinstance(r.value, ast.Constant) and r.value.value is None) for r in rets):
+            return
+        guards_ = [st for st in fn.body if isinstance(st, ast.If) and not st.orelse and len(st.body) == 1 and isinstance(st.body[0], ast.Return)]
+        tail_ret = [st for st in fn.body[-1:] if isinstance(st, ast.Return)]
+        if len(guards_) + len(tail_ret) != len(rets) or not guards_:
+            return
+
+        def fold(body):
+            for i, st in enumerate(body):
+                if st in guards_:
+                    rest = fold(body[i + 1:])
+                    if not rest:
+                        return body[:i]
+                    t = st.test
+                    neg = t.operand if isinstance(t, ast.UnaryOp) and isinstance(t.op, ast.Not) else ast.UnaryOp(op=ast.Not(), operand=t)
+                    if isinstance(t, ast.Compare) and len(t.ops) == 1:
+                        flip = {ast.In: ast.NotIn, ast.NotIn: ast.In, ast.Is: ast.IsNot, ast.IsNot: ast.Is, ast.Eq: ast.NotEq, ast.NotEq: ast.Eq}
+                        for a_, b_ in flip.items():
+                            if isinstance(t.ops[0], a_):
+                                neg = ast.Compare(left=t.left, ops=[b_()], comparators=t.comparators)
+                                break
+                    return body[:i] + [ast.copy_location(ast.If(test=ast.copy_location(neg, t), body=rest, orelse=[]), st)]
+            return [st for st in body if not isinstance(st, ast.Return)]
+        new = fold(list(fn.body))
+        if new and new != fn.body:
+            fn.body = new
+            changed = True
+
     t2 = copy.deepcopy(tree)
     for n in ast.walk(t2):
         if isinstance(n, (ast.FunctionDef, ast.AsyncFunctionDef)):
             n.body = visit_block(n.body)
+            if n.name not in vocab() and not n.name.startswith("__"):
+                fold_return_guards(n)
     if changed:
         ast.fix_missing_locations(t2)
         return t2
